@@ -137,6 +137,7 @@ def value_of(x):
 class State:
     def __init__(self, wmodel):
         self.held = []          # (step, object as returned, its value when it was returned)
+        self.recycle = False    # histories overwrite the q arrays they passed to make_kernel
         self.kern = {}
         self.exp = {}
         self.dm = {}
@@ -244,7 +245,14 @@ def do_op(st, e):
     from sasmodels.direct_model import call_kernel, call_Fq
     op = e["op"]
     if op == "make":
-        st.kern[e["s"]] = (model(e["m"]).make_kernel(QS[e["q"]]), e["m"], e["q"])
+        # the caller's own q arrays: after the kernel exists the caller recycles its buffers (histories only - the
+        # fresh-process oracle leaves them alone); the kernel must have taken what it needs
+        qv = [a.copy() for a in QS[e["q"]]]
+        st.kern[e["s"]] = (model(e["m"]).make_kernel(qv), e["m"], e["q"])
+        if st.recycle:
+            for a in qv:
+                a *= 1.7
+                a += 0.01
         return "", [], False
     if op == "call":
         kernel, m, q = st.kern[e["s"]]
@@ -373,6 +381,7 @@ def main():
         emit({"tid": 0, "ev": "Oracle", "key": req["key"], "val": oracle(req["key"])})
         return
     st = State(dict(req["wmodel"]))
+    st.recycle = True
     emit({"tid": req["tid"], "ev": "begin", "wmodel": req["wmodel"]})
     for n, e in enumerate(req["steps"]):
         try:
